@@ -149,11 +149,16 @@ def parse_diags(stderr):
     return diags, other
 
 
-def primary(d):
-    for s in d.get('spans', []):
+def primary(d, fname=None):
+    """Primary span, restricted to the generated file (a failed vstd trait-level postcondition
+    has its primary span inside vstd; the secondary span then names our function body)."""
+    spans = d.get('spans', [])
+    if fname:
+        spans = [s for s in spans if os.path.basename(s.get('file_name', '')) == fname]
+    for s in spans:
         if s.get('is_primary'):
             return s
-    return d['spans'][0] if d.get('spans') else None
+    return spans[0] if spans else None
 
 
 def run_verus(path, extra=(), timeout=900):
@@ -165,7 +170,7 @@ def run_verus(path, extra=(), timeout=900):
     except Exception:
         js = None
     diags, other = parse_diags(err)
-    return {'rc': rc, 'json': js, 'diags': diags, 'other': other, 'wall': wall, 'cmd': ' '.join(cmd), 'raw_err': err}
+    return {'path': path, 'rc': rc, 'json': js, 'diags': diags, 'other': other, 'wall': wall, 'cmd': ' '.join(cmd), 'raw_err': err}
 
 
 class UnitResult:
@@ -194,14 +199,14 @@ def run_unit(name, tier='quick', seed=0):
     try:
         u = Unit(VERIF, REPO, name).generate()
         text, spans = u.render()
-        ctext, _ = u.render(canary=True)
+        layers = u.canary_layers()
+        ctexts = [u.render(canary=L)[0] for L in layers]
     except (GenError, rs.ScanError) as e:
         r.status = 'undecided'
         r.reason = 'extraction: %s' % e
         r.wall = time.time() - t0
         return r
     path = os.path.join(wd, name + '.rs')
-    cpath = os.path.join(wd, name + '_canary.rs')
     open(path, 'w').write(text)
     r.generated = path
     try:
@@ -210,8 +215,15 @@ def run_unit(name, tier='quick', seed=0):
         r.status = 'undecided'
         r.reason = 'scan of generated file: %s' % e
         return r
-    ctext2, clemmas = canary_lemmas(ctext)
-    open(cpath, 'w').write(ctext2)
+    cpaths = []
+    clemmas = []
+    for k, ct in enumerate(ctexts):
+        if k == 0:
+            ct, clemmas = canary_lemmas(ct)
+            ctexts[0] = ct
+        cp = os.path.join(wd, '%s_canary%d.rs' % (name, k))
+        open(cp, 'w').write(ct)
+        cpaths.append(cp)
     r.obligations = dict(u.obligations)
     r.obligations.update(lemma_obligations(u, text, spans, fns))
     r.functions = u.functions
@@ -221,16 +233,16 @@ def run_unit(name, tier='quick', seed=0):
     r.trusted += ['N3 rename: %s -> %s' % x for x in renames]
 
     extra = []
-    with cf.ThreadPoolExecutor(max_workers=2) as ex:
+    with cf.ThreadPoolExecutor(max_workers=8) as ex:
         f1 = ex.submit(run_verus, path, extra)
-        f2 = ex.submit(run_verus, cpath, extra)
-        main, can = f1.result(), f2.result()
+        f2 = [ex.submit(run_verus, cp, extra) for cp in cpaths]
+        main, cans = f1.result(), [f.result() for f in f2]
     r.cmd = main['cmd']
     r.main = main
     # ---- main run
     _digest_main(r, main, text, spans, fns)
     # ---- canary
-    _digest_canary(r, can, ctext2, u, clemmas)
+    _digest_canary(r, cans, ctexts, layers, clemmas)
     if tier == 'thorough' and r.status == 'ok':
         # stability: re-discharge under other seeds / larger rlimit; a flip is instability, never a violation
         variants = [['--smt-option', 'smt.random_seed=%d' % (seed * 3 + k + 1), '--rlimit', '50'] for k in range(3)]
@@ -277,8 +289,8 @@ def _digest_main(r, main, text, spans, fns):
             r.status = 'undecided'
             r.reason = 'solver resource limit: ' + msg
             continue
-        sp = primary(d)
-        if not any(x in low for x in VERIF_FAIL) or sp is None:
+        sp = primary(d, os.path.basename(main['path']))
+        if d.get('code') is not None or not any(x in low for x in VERIF_FAIL) or sp is None:
             hard.append(msg + (' @%s:%s' % (sp['line_start'], sp['column_start']) if sp else ''))
             continue
         off = _offset(text, sp['line_start'], sp['column_start'])
@@ -329,34 +341,41 @@ def _digest_main(r, main, text, spans, fns):
             r.reason = 'failure attributed to non-obligation %s: %s' % (oid, r.failed[oid][0][:200])
 
 
-def _digest_canary(r, can, ctext, u, clemmas):
+def _digest_canary(r, cans, ctexts, layers, clemmas):
     """Every canaried function must FAIL.  A canary that verifies => contradictory assumptions."""
-    expected = set(f['id'] for f in u.functions) | set(clemmas)
-    fns, m = scan_fns(ctext)
+    expected = set(clemmas)
+    for L in layers:
+        expected |= set(L)
     failing = set()
     hard = []
-    for d in can['diags']:
-        if d.get('level') != 'error':
-            continue
-        msg = d.get('message', '')
-        if msg.startswith('aborting due to'):
-            continue
-        sp = primary(d)
-        if sp is None:
-            continue
-        low = msg.lower()
-        if not any(x in low for x in VERIF_FAIL) and not any(x in low for x in RLIMIT):
-            hard.append(msg)
-            continue
-        # failing function = the one containing any span of the diagnostic
-        for s in d.get('spans', []):
-            off = _offset(ctext, s['line_start'], s['column_start'])
-            host = next((f for f in fns if f['start'] <= off < f['end']), None)
-            if host:
-                failing.add(host['qual'])
+    wall = 0.0
+    for k, (can, ctext) in enumerate(zip(cans, ctexts)):
+        wall = max(wall, can['wall'])
+        fns, m = scan_fns(ctext)
+        inlayer = set(layers[k]) | (set(clemmas) if k == 0 else set())
+        for d in can['diags']:
+            if d.get('level') != 'error':
+                continue
+            msg = d.get('message', '')
+            if msg.startswith('aborting due to'):
+                continue
+            sp = primary(d)
+            if sp is None:
+                continue
+            low = msg.lower()
+            if d.get('code') is not None or (not any(x in low for x in VERIF_FAIL) and not any(x in low for x in RLIMIT)):
+                hard.append(msg)
+                continue
+            for s in d.get('spans', []):
+                if os.path.basename(s.get('file_name', '')) != os.path.basename(can['path']):
+                    continue
+                off = _offset(ctext, s['line_start'], s['column_start'])
+                host = next((f for f in fns if f['start'] <= off < f['end']), None)
+                if host and host['qual'] in inlayer:
+                    failing.add(host['qual'])
     alive = sorted(x for x in expected if x not in failing)
     r.canary = {'expected_to_fail': len(expected), 'failed_as_expected': len(expected) - len(alive), 'vacuous': alive,
-                'wall_s': round(can['wall'], 2)}
+                'layers': len(layers), 'wall_s': round(wall, 2)}
     if hard and r.status == 'ok':
         r.status = 'undecided'
         r.reason = 'canary file rejected: ' + ' | '.join(hard[:3])
